@@ -5,8 +5,8 @@ from .. import base, drivers, explore, report, universe
 from . import common
 
 PROP = "C09"
-KQ = ("NL", "J")
-KT = KQ + ("CE", "W3", "BL", "NLI", "CO")
+KQ = ("J", "BL")
+KT = KQ + ("NL", "CE", "W3", "NLI", "CO")
 MAX_STEPS = 6
 _memo = {}  # (cfg key, text hash) -> "fixpoint"
 
